@@ -14,6 +14,11 @@ import (
 	"github.com/tokenized/pkg/wire"
 )
 
+const (
+	// minReorgBlockSize is the smallest serialized reorg block (header and tx count).
+	minReorgBlockSize = wire.MaxBlockHeaderPayload + 4
+)
+
 var (
 	ReorgNotFound = errors.New("Reorg not found")
 )
@@ -175,6 +180,10 @@ func (reorg *Reorg) Read(buf *bytes.Buffer) error {
 		return err
 	}
 
+	if uint64(count) > uint64(buf.Len()/minReorgBlockSize) {
+		return errors.New("Reorg block count exceeds data")
+	}
+
 	reorg.Blocks = make([]ReorgBlock, count)
 	for i, _ := range reorg.Blocks {
 		if err := reorg.Blocks[i].Read(buf); err != nil {
@@ -213,6 +222,10 @@ func (block *ReorgBlock) Read(buf *bytes.Buffer) error {
 	var count uint32
 	if err := binary.Read(buf, binary.LittleEndian, &count); err != nil {
 		return err
+	}
+
+	if uint64(count) > uint64(buf.Len()/bitcoin.Hash32Size) {
+		return errors.New("Reorg tx count exceeds data")
 	}
 
 	block.TxIds = make([]bitcoin.Hash32, count)
